@@ -5,7 +5,7 @@
 cd /verif
 one() {
   id=$1
-  if grep -q '"obsolete"' /verif/seeded/$id/meta.json 2>/dev/null; then echo "$id: skipped (no longer a break on the current tree, see meta.json)"; return; fi
+  if grep -qE '"(obsolete|not_reported)"' /verif/seeded/$id/meta.json 2>/dev/null; then echo "$id: skipped (no longer a break, or recorded as not reported: see meta.json)"; return; fi
   c=$(python3 - "$id" <<'P' 2>/dev/null
 import json,sys,re
 m=json.load(open(f'/verif/seeded/{sys.argv[1]}/meta.json'))
